@@ -181,6 +181,43 @@ Proof.
   apply in_fs_of, in_map_iff in Hm as (sp & <- & Hsp). destruct (map_opt_in _ _ _ E sp Hsp) as (t & Ht & Ft). exists t. auto.
 Qed.
 
+(* the same on texts: two texts with the same clauses up to order, duplication, spacing and stray commas *)
+Lemma map_opt_none_iff {A B} (f : A -> option B) l : map_opt f l = None <-> exists x, In x l /\ f x = None.
+Proof.
+  induction l as [|x l IH]; cbn [map_opt].
+  - split; [discriminate|]. intros (x & [] & _).
+  - destruct (f x) as [b|] eqn:E.
+    + destruct (map_opt f l) as [r|]; cbn.
+      * split; [discriminate|]. intros (y & [<-|Hy] & Fy); [congruence|].
+        assert (X : Some r = None) by (apply (proj2 IH); eauto). discriminate.
+      * split; auto. intros _. destruct (proj1 IH eq_refl) as (y & Hy & Fy). exists y. cbn; auto.
+    + split; auto. intros _. exists x. cbn; auto.
+Qed.
+Lemma map_opt_in_rev {A B} (f : A -> option B) l : forall r, map_opt f l = Some r -> forall x y, In x l -> f x = Some y -> In y r.
+Proof.
+  induction l as [|a l IH]; intros r; cbn [map_opt]; [intros _ x y []|].
+  destruct (f a) as [b|] eqn:E; [|discriminate]. destruct (map_opt f l) as [r'|]; [|discriminate]. cbn. intros [= <-] x y [<-|Hx] Fx.
+  - left. congruence.
+  - right. eapply IH; eauto.
+Qed.
+Theorem text_order_dup_irrelevant s s' p p' l :
+  map_opt Specifier (clauses s) = Some l -> (forall t, In t (clauses s) <-> In t (clauses s')) ->
+  respects (map mk_member l) -> Forall wf_member l ->
+  exists S S', SpecifierSet s p = Some S /\ SpecifierSet s' p' = Some S' /\
+    forall b inst item, set_contains S (Some b) inst item = set_contains S' (Some b) inst item.
+Proof.
+  intros M H R W. unfold SpecifierSet. rewrite M.
+  destruct (map_opt Specifier (clauses s')) as [l'|] eqn:M'.
+  - do 2 eexists. split; [reflexivity|]. split; [reflexivity|]. intros b inst item.
+    apply (clause_order_dup_irrelevant (map mk_member l) (map mk_member l') p p' b inst item); auto.
+    + intros m. rewrite !in_map_iff. split; intros (sp & <- & Hsp); exists sp; split; auto.
+      * destruct (map_opt_in _ _ _ M sp Hsp) as (t & Ht & Ft). apply (map_opt_in_rev _ _ _ M' t sp); auto. now apply H.
+      * destruct (map_opt_in _ _ _ M' sp Hsp) as (t & Ht & Ft). apply (map_opt_in_rev _ _ _ M t sp); auto. now apply H.
+    + apply Forall_forall. intros m Hm. apply in_map_iff in Hm as (sp & <- & Hsp). rewrite Forall_forall in W. now apply W.
+  - exfalso. apply map_opt_none_iff in M' as (t & Ht & Ft). apply H in Ht.
+    assert (X : map_opt Specifier (clauses s) = None) by (apply map_opt_none_iff; eauto). congruence.
+Qed.
+
 (* ---------------------------------------------------------------- str() *)
 Lemma str_cmp_trans_lt a b c : str_cmp a b = Lt -> str_cmp b c = Lt -> str_cmp a c = Lt.
 Proof. intros H1 H2. apply (ok_trans_lt _ str_cmp_ok a b c H1). congruence. Qed.
